@@ -300,6 +300,15 @@ def run_check(prop: str, tier: str, verif_seed: int, workers: int | None = None)
 
     exit_code = 0
     replay_paths: list[str] = []
+    if new_sigs and os.environ.get("DSIM_HARVEST"):
+        # harvesting mode (tooling only): list every unlisted signature with one example, no minimisation
+        for sig in new_sigs:
+            idx, v = min(by_sig[sig], key=lambda iv: iv[0])
+            print("HARVEST " + json.dumps({"property": prop, "signature": sig, "index": idx, "count": len(by_sig[sig]),
+                                           "detail": v["detail"][:600]}), flush=True)
+        new_sigs_for_exit = list(new_sigs)
+        new_sigs = []
+        exit_code = 1 if new_sigs_for_exit else 0
     if new_sigs:
         exit_code = 1
         (VERIF / "replays").mkdir(exist_ok=True)
